@@ -936,6 +936,9 @@ start_function (GMarkupParseContext *context,
 	  ((GIrNodeField *)ctx->current_typed)->type == NULL)
 	{
 	  ((GIrNodeField *)ctx->current_typed)->type = parse_type (ctx, "gpointer");
+	  /* the field is complete; a following <method> must not be taken for
+	   * its callback */
+	  ctx->current_typed = NULL;
 	  state_switch (ctx, STATE_PASSTHROUGH);
 	  return TRUE;
 	}
